@@ -79,6 +79,7 @@ type family struct {
 	inStrs   []string
 	clauses  []qframe.FilterClause
 	orders   []qframe.Order
+	upper    qframe.QFrame // the root with its enum and string columns written anew by the ToUpper built-in (not used before)
 }
 
 type c11Builtin struct {
@@ -111,6 +112,16 @@ func TestC11(t *testing.T) {
 				if k := rapid.IntRange(0, 5).Draw(t, "longkey"); k < 3 && s[r] != nil {
 					s[r] = hx.Sp(strings.Repeat(*s[r]+"-long-key-", 7+k) + fmt.Sprint(k))
 				}
+			}
+			base.Cols[ci].S = s
+		}
+		// a cell or two of more than a thousand bytes (conversion buffers have a first size; what grew once may be kept)
+		if base.N() > 0 && rapid.IntRange(0, 3).Draw(t, "verylongcell") == 0 {
+			ci := base.Find("s1")
+			s := append([]*string(nil), base.Cols[ci].S...)
+			for k := 0; k < 2; k++ {
+				r := rapid.IntRange(0, len(s)-1).Draw(t, "verylongrow")
+				s[r] = hx.Sp(strings.Repeat("Ab", rapid.SampledFrom([]int{505, 511, 512, 600, 2100}).Draw(t, "verylonglen")) + "ç" + fmt.Sprint(k))
 			}
 			base.Cols[ci].S = s
 		}
@@ -210,6 +221,7 @@ func TestC11(t *testing.T) {
 				f.ctx = hx.NewCtx()
 			}
 			f.grouper = f.members[gmember].GroupBy(groupby.Columns(gkey), groupby.Null(gnullShared))
+			f.upper = f.members[0].Apply(qframe.Instruction{Fn: "ToUpper", DstCol: "e1", SrcCol1: "e1"}, qframe.Instruction{Fn: "ToUpper", DstCol: "s1", SrcCol1: "s1"})
 			return f
 		}
 		famB := mkFamily(true)  // reference family: solo runs
@@ -229,7 +241,27 @@ func TestC11(t *testing.T) {
 				mi = 4 // more weight on the member that was itself made by adding a column (its column slice has a history)
 			}
 			tab, mn := tabs[mi], c11Names[mi]
-			switch rapid.IntRange(0, 25).Draw(t, "op") {
+			switch rapid.IntRange(0, 26).Draw(t, "op") {
+			case 26:
+				// the family's upper-cased frame (columns made by a built-in, untouched so far) filtered by value: whatever a
+				// column sets up on its first use is set up by several goroutines at once
+				ucol := rapid.SampledFrom([]string{"e1", "e1", "s1"}).Draw(t, "uppercol")
+				ucomp := rapid.SampledFrom([]string{"=", "!=", "<", ">=", "in", "like", "isnull"}).Draw(t, "uppercomp")
+				uval := strings.ToUpper(rapid.SampledFrom([]string{"a", "b", "ab", "c", ""}).Draw(t, "upperval"))
+				makers[i] = opMaker{desc: fmt.Sprintf("upper-cased root.Filter(%s %s %q)", ucol, ucomp, uval), mk: func(f family) func() string {
+					return func() string {
+						var arg interface{} = uval
+						switch ucomp {
+						case "in":
+							arg = []string{uval, "ZZ"}
+						case "like":
+							arg = uval + "%"
+						case "isnull":
+							arg = nil
+						}
+						return snapFrame(f.upper.Filter(qframe.Filter{Column: ucol, Comparator: ucomp, Arg: arg}))
+					}
+				}}
 			case 25:
 				// a user aggregation that works in place on the slice it is handed (a median by sorting it, a reversal): the
 				// slice is the function's own scratch, whichever rows the group holds - with no key, a bool key or an enum key
